@@ -354,9 +354,9 @@ def check_C14(tier, seed):
         reader_histories(rep, tier, seed + 1001, "c14s_", True, 6, 400, scan=3)
         writer_histories(rep, tier, seed + 1000, "c14w_", 4, 300, big=False)
         roundtrip_runs(rep, seed + 30, "c14rt_", 8, 150, specs=("Trace_Render",))
-        parser_runs(rep, "sched", seed + 31, "c14p_", 6, 40, parsers="btor2,cnf,aig")
+        parser_runs(rep, "sched", seed + 31, "c14p_", 8, 70, parsers="btor2")
     else:
-        parser_runs(rep, "sched", seed + 31, "c14p_", 14, 400, parsers="btor2,cnf,aig")
+        parser_runs(rep, "sched", seed + 31, "c14p_", 14, 600, parsers="btor2")
         roundtrip_runs(rep, seed + 30, "c14rt_", 12, 1500, specs=("Trace_Render",))
         reader_histories(rep, tier, seed + 1000, "c14r_", True, 14, 6000, ops=60, maxlen=96)
         reader_histories(rep, tier, seed + 1001, "c14s_", True, 14, 4000, ops=60, maxlen=96, scan=3)
